@@ -34,7 +34,9 @@ RULE = ('corpus programs (hand-written snippets covering every node type, random
         'property itself: node set, once each, parents first, siblings in start-position order, back/leave/both laws, '
         'filters, step chains, next/prev inverse, path bijection; (f) the same oracle on one tiny program for EVERY small shape '
         'of the six interleaved kinds (Call/ClassDef with <=3 keywords and <=3 positional/starred arguments in every gap, '
-        'Dict with ** at all positions, all argument-group combinations, MatchMapping with rest, Compare chains).  distinct = distinct (tree, call parameters); '
+        'Dict with ** at all positions, all argument-group combinations, MatchMapping with rest, Compare chains) and of every '
+        'node class built by CPython with 0/1/2/3 elements in each list field and optional fields present/absent (every '
+        '(class, field) transition of the NEXT/PREV tables realised by a program), plus corpus.hard_snippets().  distinct = distinct (tree, call parameters); '
         'non-trivial = tree with more than 3 nodes')
 TRUSTED = [
     'modelled: fst_traverse.walk (three loops; all/self_/recurse/back), next, prev, first_child, last_child, next_child, '
@@ -43,6 +45,7 @@ TRUSTED = [
     'shapes of every class, NEXT_FUNCS/PREV_FUNCS on the same shapes',
     'not modelled: send() to the walk generator, scope=True, asts=, tree modification during a walk (C15), step_*(top=), '
     'last_header_child, as_str paths, None entries on the walk stack (dropped when the tree is serialised; the real code runs on them)',
+    'oracle exclusion: in f"{expr = }" CPython places the debug-text Constant before the FormattedValue although it starts inside its braces; that pair is not required to be in start-position order',
     'field kinds of the synthetic shapes come from CPython class docstrings; list lengths 0..3 (0..2 where a class has >3 list '
     'fields); Call/ClassDef arrangements restricted to the ones Python\'s grammar allows',
 ]
@@ -309,6 +312,9 @@ def _program(arg):
                     bad = (s[0], s[1]) <= (ps[0], ps[1]) if s[2] == 'cpython' else (s[0], s[1]) < (ps[0], ps[1])
                 else:
                     bad = s[0] < ps[0]
+                if bad and isinstance(c, ast.FormattedValue) and isinstance(pc, ast.Constant) and s[2] == 'cpython' \
+                        and (c.lineno, c.col_offset) <= (pc.lineno, pc.col_offset) <= (c.end_lineno, c.end_col_offset):
+                    bad = False         # CPython's own layout of f"{expr = }": the debug text Constant lies inside the braces of the FormattedValue that follows it
                 if bad:
                     par = cp_parent[id(c)]
                     fail('walk', par.__class__.__name__, 'siblings-out-of-source-order',
@@ -593,6 +599,9 @@ def _programs(ctx, n, stdlib):
     progs += corpus.programs(rng, n, stdlib=stdlib)
     for lst in c14_shapes.sources().values():           # a sample of the exhaustive interleaved shapes (all go through the oracle in sweep)
         progs += rng.sample(lst, min(len(lst), max(10, n // 8)))
+    for lst in c14_shapes.transition_sources().values():
+        progs += rng.sample(lst, min(len(lst), 4))
+    progs += list(getattr(corpus, 'hard_snippets', lambda: [])())
     return progs
 
 
@@ -697,14 +706,20 @@ def sweep(ctx):
     ctx.notes['sweep_special_roots'] = n
     _shapes_oracle(ctx)
     # report the smallest witness first
-    ctx.failures.sort(key=lambda f: len((f.witness or {}).get('src', '')) if isinstance(f.witness, dict) else 0)
+    ctx.failures.sort(key=lambda f: (len((f.witness or {}).get('src', '')) if isinstance(f.witness, dict) else 0, '|Module|' in f.sig))
 
 
 def _shapes_oracle(ctx):
     """The six interleaved child orders, exhaustively for small sizes, through the ORACLE (one tiny program per shape):
     children in walk order sorted by CPython start position, node set == ast.walk, next/prev/next_child/prev_child/
     step chains == walk.  Every run, both tiers."""
-    fams = c14_shapes.sources()
+    fams = dict(c14_shapes.sources())
+    for k, lst in c14_shapes.transition_sources().items():      # every class x 0/1/2/3 elements per list field x optional fields
+        fams['T:' + k] = lst
+    try:
+        fams['hard_snippets'] = list(corpus.hard_snippets())
+    except AttributeError:
+        pass
     items = [(src, 1, True, True) for lst in fams.values() for src in lst]
     res = pmap(_oracle_only, items, chunksize=64)
     nfail = 0
@@ -714,7 +729,8 @@ def _shapes_oracle(ctx):
             nfail += 1
             ctx.fail(sig, what, w)
             ctx.tally('oracle_failures', sig)
-    ctx.notes['interleaved_shapes_oracle'] = {k: len(v) for k, v in fams.items()}
+    ctx.notes['interleaved_shapes_oracle'] = {k: len(v) for k, v in fams.items() if not k.startswith('T:')}
+    ctx.notes['transition_shapes_oracle'] = sum(len(v) for k, v in fams.items() if k.startswith('T:'))
     return nfail
 
 
